@@ -176,7 +176,7 @@ def impl_predict_tucker(v, X):
 def reg_problems(tier, rng):
     """CP / Tucker regression problems: sample counts 2-8, per-sample orders 1-3, scalar and tensor targets"""
     probs = []
-    nfit = 30 if tier == "quick" else 400
+    nfit = 24 if tier == "quick" else 200
     for k in range(nfit):
         kind = "cp" if k % 3 != 2 else "tucker"
         order = rng.choice([2, 2, 3]) if kind == "tucker" else rng.choice([1, 2, 2, 3])
@@ -199,6 +199,20 @@ def reg_problems(tier, rng):
         prob = dict(kind=kind, X=X, y=y, Xn=Xn, rank=rank, reg=reg, seed=seed, n_iter=n_iter)
         if k % 4 == 3:
             prob["tol"] = 1e-14          # never converges: n_iter_max is exhausted
+        probs.append(prob)
+    # fits that leave the loop through the convergence test (break), at several tolerances: the weight tensor the object exposes
+    # must be the reconstruction of the factors it exposes whichever way the loop ends (compared at 1e-12, predicates only)
+    tols = [1e-1, 1e-2, 1e-3, 1e-4, None]
+    for k in range(10 if tier == "quick" else 40):
+        kind = "cp" if k % 5 != 4 else "tucker"
+        sx = (rng.randint(2, 3), rng.randint(2, 3))
+        n = rng.randint(5, 8)
+        so = rng.choice([(), (2,)]) if kind == "cp" else ()
+        rank = rng.randint(1, 2) if kind == "cp" else [rng.randint(1, 2) for _ in sx]
+        prob = dict(kind=kind, X=gauss(rng, (n,) + sx), y=gauss(rng, (n,) + so) + 0.5, Xn=dyadic(rng, (2,) + sx), rank=rank, reg=rng.choice([0.5, 1, 3.0]),
+                    seed=rng.randint(0, 10 ** 6), n_iter=400, pred_only=True, want_stop="tolerance")
+        if tols[(k // 5 + k) % 5] is not None:
+            prob["tol"] = tols[(k // 5 + k) % 5]
         probs.append(prob)
     return probs
 
@@ -229,7 +243,7 @@ def reg_predicates(p, r):
         core, factors = r.tucker_weight_
         full = tucker_full(np.asarray(core), [np.asarray(f) for f in factors])
         name = "tucker_to_tensor(tucker_weight_)"
-    if not close(W, full):
+    if not close(W, full, 1e-12):
         bad.append(("C19_weight_is_reconstruction", f"weight_tensor_ != {name}: max diff {np.max(np.abs(W - full)) if W.shape == full.shape else 'shape ' + str(W.shape) + ' vs ' + str(full.shape)}"))
     v = np.asarray(r.vec_W_)
     if v.shape != (W.size,) or not close(v, W.reshape(-1), 1e-12):
@@ -279,9 +293,11 @@ def reg_cases(p, r, cid):
 # ----------------------------------------------------------------------------- CP_PLSR
 def plsr_problems(tier, rng):
     probs = []
-    nfit = 24 if tier == "quick" else 300
+    nfit = 20 if tier == "quick" else 150
     for k in range(nfit):
         order = rng.choice([1, 2, 2, 3])
+        if k % 5 == 1:
+            order = 1            # X is a matrix (the branch of fit that normalises Z itself): present for every seed
         sx = tuple(rng.randint(2, 3) for _ in range(order))
         n = rng.randint(3, 8) if k % 6 else 2
         m = rng.choice([0, 1, 2, 3])           # 0: vector-valued Y (1-D)
@@ -481,9 +497,11 @@ def plsr_fit_problems(tier, rng):
     """small problems on which the number of passes of the inner iteration is pinned: tol = 0 (never stops early,
     exactly n_iter_max passes) or tol = 1e300 (stops after the second pass)"""
     probs = []
-    nfit = 16 if tier == "quick" else 150
+    nfit = 12 if tier == "quick" else 72
     for k in range(nfit):
         order = rng.choice([1, 2, 2, 3])
+        if k % 5 == 0:
+            order = 1            # X is a matrix: the whole-fit correspondence sees that branch for every seed
         sx = tuple(rng.randint(2, 3) for _ in range(order))
         n = rng.randint(3, 7)
         m = rng.choice([0, 1, 2, 3])
@@ -505,7 +523,7 @@ def plsr_fit_problems(tier, rng):
 def plsr_conv_problems(tier, rng):
     """the same small problems run to convergence with a real tolerance (n_iter_max = 100): the model follows the
     stopping test; a case is compared only where the model's decisions have a factor-2 margin (decided in Coq)"""
-    want = 8 if tier == "quick" else 100
+    want = 6 if tier == "quick" else 48
     probs = []
     while len(probs) < want:       # a single-column Y converges in one pass: keep the problems with >= 2 columns
         probs += [p for p in plsr_fit_problems(tier, rng) if np.ndim(p["y"]) == 2 and p["y"].shape[1] >= 2]
@@ -637,7 +655,7 @@ def plsr_fit_case(p):
 # ----------------------------------------------------------------------------- the regressors' fit loop
 def loop_problems(tier, rng):
     probs = []
-    nfit = 8 if tier == "quick" else 80
+    nfit = 6 if tier == "quick" else 36
     for k in range(nfit):
         kind = "cp_loop" if k % 3 != 2 else "tucker_loop"
         order = rng.choice([2, 2, 3])
@@ -1142,12 +1160,12 @@ def plsr_seq_case(prog):
 
 
 def seq_problems(tier, rng):
-    n = 1 if tier == "quick" else 30
+    n = 1 if tier == "quick" else 14
     flip = rng.randint(0, 1)          # quick: one regressor sequence of each flavour, the kinds alternate with the seed
     out = []
     for k in range(n):
         out.append(dict(kind="reg_seq", which="cp" if (k + flip) % 2 == 0 else "tucker", gen_seed=rng.randint(0, 10 ** 9)))
-    for k in range(1 if tier == "quick" else 12):     # every fit of the sequence re-computed by the model's own fit loop
+    for k in range(1 if tier == "quick" else 6):     # every fit of the sequence re-computed by the model's own fit loop
         out.append(dict(kind="reg_seq", which="tucker" if (k + flip) % 2 == 0 else "cp", gen_seed=rng.randint(0, 10 ** 9), loop=True))
     for k in range(n):
         out.append(dict(kind="plsr_seq", gen_seed=rng.randint(0, 10 ** 9)))
@@ -1757,8 +1775,34 @@ def source_tie(chk):
     import os, shutil, subprocess
     d = os.path.join(C.BUILD, "gen", f"C19_{os.getpid()}")
     os.makedirs(d, exist_ok=True)
+    # The verdict of coqc on a generated file is a function of its text and of the compiled objects it loads.  The text is
+    # regenerated from the CURRENT source on every run; in the quick tier a text already proved against the same compiled objects
+    # is not re-checked (same rule as common.print_assumptions: VERIF_NO_PA_CACHE=1 disables it, the thorough tier always re-checks
+    # and refreshes the cache).  Only "proved" verdicts are remembered.
+    import hashlib, json
+    cache_fn = os.path.join(C.BUILD, "pa_cache", "C19_source_tie.json")
+    stamp = C._vo_stamp()
+    known = set()
+    try:
+        cj = json.load(open(cache_fn))
+        if cj.get("stamp") == stamp:
+            known = set(cj.get("proved", []))
+    except Exception:
+        pass
+    use_cache = chk.tier == "quick" and not os.environ.get("VERIF_NO_PA_CACHE")
+    proved_now, hits = set(), []
 
     def coqc(name, text):
+        h = hashlib.sha256(text.encode()).hexdigest()
+        if use_cache and h in known:
+            hits.append(name); proved_now.add(h)
+            return "proved", ""
+        st, detail = coqc_run(name, text)
+        if st == "proved":
+            proved_now.add(h)
+        return st, detail
+
+    def coqc_run(name, text):
         fn = os.path.join(d, name)
         open(fn, "w").write(text)
         r = None
@@ -1801,6 +1845,14 @@ def source_tie(chk):
                 chk.broken.append({"what": f"source tie corr:C19-source broken ({name}): a definition regenerated from the current source of tensorly/regression no longer equals the model's",
                                    "detail": detail})
         chk.cov["source_derived_lemmas"] = res
+        chk.cov["source_derived_lemmas_answered_from_cache"] = len(hits)
+        try:
+            os.makedirs(os.path.dirname(cache_fn), exist_ok=True)
+            tmp = cache_fn + f".{os.getpid()}.tmp"
+            json.dump({"stamp": stamp, "proved": sorted(proved_now | (known if use_cache else set()))}, open(tmp, "w"))
+            os.replace(tmp, cache_fn)
+        except OSError:
+            pass
     finally:
         shutil.rmtree(d, ignore_errors=True)
 
@@ -1958,7 +2010,9 @@ def eval_problem(p):
         arrs.append(r.cp_weight_[0] if p["kind"] == "cp" else r.tucker_weight_[0])
         if not finite_ok(*arrs):
             return "non-finite", [], [], True
-        return "ok", reg_predicates(p, r), reg_cases(p, r, 0), True
+        if p.get("want_stop"):
+            p["_stopped_by"] = "tolerance" if int(r.n_iterations_) < int(p["n_iter"]) else "budget"
+        return "ok", reg_predicates(p, r), ([] if p.get("pred_only") else reg_cases(p, r, 0)), True
     st, r = call(fit_plsr, p["X"], p["y"], p["ncomp"], p.get("n_iter", 100), p.get("tol", 1e-9))
     if st != "ok":
         return "fit-raised", [], [], True
@@ -1994,14 +2048,31 @@ def problem_from_json(d):
     return p
 
 
+_STAGE = {"t": None, "log": {}}
+
+
+def stage(name):
+    """CPU seconds (self + children) and wall seconds of the stage that just ended"""
+    import os, time
+    t = os.times(); now = (t[0] + t[1] + t[2] + t[3], time.time())
+    if _STAGE["t"] is not None:
+        pn, pt = _STAGE["t"]
+        _STAGE["log"][pn] = [round(now[0] - pt[0], 1), round(now[1] - pt[1], 1)]
+    _STAGE["t"] = (name, now)
+
+
+
 def run(chk):
     rng = random.Random(chk.seed)
+    stage('build_proofs')
     chk.build_proofs()
+    stage('source_tie')
     # Coq prints a header line "Axioms:" before the list; common.print_assumptions captures that word as if it were an axiom
     chk.axioms = {k: [a for a in v if a != "Axioms"] for k, v in chk.axioms.items()}
     chk.broken = [b for b in chk.broken if not (str(b.get("what", "")).endswith("depends on non-stdlib axioms") and b.get("detail") == ["Axioms"])]
     C.reset_backends()
     source_tie(chk)
+    stage('probes')
     dtype_probes(chk, random.Random(chk.seed + 19))
     # LAPACK reports the NaN arguments of the degenerate fits on the process's stdout / stderr ("On entry to DLASCL ..."): keep the
     # check's output clean
@@ -2017,6 +2088,7 @@ def run(chk):
         for _fd in _saved + (_dn,):
             os.close(_fd)
     cases, meta = [], []
+    stage('predict_z')
     # 1. exact predict cases
     for kind, W, X in z_predict_cases(chk.tier, rng):
         fn = impl_predict_cp if kind == "cp" else impl_predict_tucker
@@ -2040,6 +2112,7 @@ def run(chk):
                 chk.finding(ENTRY[kind] + ".predict", {"kind": "predict_z", "which": kind, "W": W, "X": X},
                             "predict != contraction of each sample with the weights over the non-sample modes (exact, integers)", "C19_predict_is_contraction")
     # 2. fitted regressors and PLSR
+    stage('fit_problems')
     corpus = load_corpus()
     problems = [p for p in corpus if p.get("kind") not in ("reg_seq", "plsr_seq")] + reg_problems(chk.tier, rng) + plsr_problems(chk.tier, rng)
     fit_problems = plsr_fit_problems(chk.tier, rng) + plsr_conv_problems(chk.tier, rng) + loop_problems(chk.tier, rng)
@@ -2076,8 +2149,9 @@ def run(chk):
             meta.append({"kind": p["kind"], "case": c2.split(" ", 1)[0] + " (two-fit: " + ("permuted" if c2.startswith("KPlsrFitPerm") else "shifted") + " run)",
                          "X_shape": list(p["X"].shape), "y_shape": list(np.shape(p["y"])), "params": {k: p[k] for k in ("ncomp", "n_iter", "tol")}, "problem": describe(p)})
             chk.count(n=1); chk.hist("case", "KPlsrFitPerm" if c2.startswith("KPlsrFitPerm") else "KPlsrFit(shifted run)")
+    stage('ridge')
     # the ridge blocks on integer data: exact (A, B) of every T.solve call of one pass
-    for k in range(16 if chk.tier == "quick" else 120):
+    for k in range(16 if chk.tier == "quick" else 80):
         kind = "cp" if k % 2 == 0 else "tucker"
         try:
             status, c = ridge_case(rng, kind)
@@ -2090,6 +2164,7 @@ def run(chk):
         cases.append(f"({len(cases)}%nat, {c})")
         meta.append({"kind": "ridge_" + kind, "case": c.split(" ", 1)[0], "literal": c[:600]})
         chk.count(key=("ridge", kind, c[:80]), nontrivial=True); chk.hist("case", c.split(" ", 1)[0])
+    stage('sequences')
     # one object under sequences of calls (predict / transform before fit, raising fits, refits, set_params in between)
     for p in [q for q in corpus if q.get("kind") in ("reg_seq", "plsr_seq")] + seq_problems(chk.tier, rng):
         try:
@@ -2108,6 +2183,7 @@ def run(chk):
                      "initial_params": {k: (v if not isinstance(v, list) else list(v)) for k, v in prog["params"].items()}})
         chk.count(key=(p["kind"], p.get("which", "plsr"), p["gen_seed"]), nontrivial=True); chk.hist("case", c.split(" ", 1)[0])
         chk.hist("sequence_length", len(prog["ops"]))
+    stage('problems')
     # the budget test of CP_PLSR.fit (n_iter_max = 0 raises iff there is a component to fit)
     Xb = dyadic(rng, (4, 2, 3), denom=8); Yb = dyadic(rng, (4, 2), denom=8)
     for n_it, n_c in ((0, 1), (0, 2), (0, 0), (1, 0), (1, 1)):
@@ -2124,6 +2200,8 @@ def run(chk):
         except Skip:
             status, bad, cs, comparable = "timeout-skipped", [], [], True
         chk.hist("fit_status_" + p["kind"], status)
+        if "_stopped_by" in p:
+            chk.hist("convergence_exit_fits", f"{p['kind']} tol={p.get('tol', 'default')}: left the loop by {p['_stopped_by']}")
         if status != "ok":
             skipped += 1
             continue
@@ -2150,11 +2228,15 @@ def run(chk):
     # the expensive cases (whole fits, sequences of fits) in small shards of their own, the cheap ones in larger shards
     HEAVY = ("KPlsrSeq", "KRegSeqZ", "KRegSeq", "KCpLoop", "KTkLoop", "KPlsrFitConv")
     ctor = lambda c: c.split(", ", 1)[1].split(" ", 1)[0]
+    stage('shards_heavy')
     heavy = [c for c in cases if ctor(c) in HEAVY]
     light = [c for c in cases if ctor(c) not in HEAVY]
     failing, n_eval, broken = C.run_case_shards("C19", HEADER, "case", heavy, shard=(4 if chk.tier == "quick" else 5), timeout=3000, tag="heavy")
-    f2, n2, b2 = C.run_case_shards("C19", HEADER, "case", light, shard=(36 if chk.tier == "quick" else 40), timeout=3000)
+    stage('shards_light')
+    f2, n2, b2 = C.run_case_shards("C19", HEADER, "case", light, shard=(64 if chk.tier == "quick" else 90), timeout=3000)
     failing |= f2; n_eval += n2; broken = list(broken) + list(b2)
+    stage('end')
+    chk.cov["stage_cpu_wall_seconds"] = dict(_STAGE["log"])
     chk.checker_cmds.append("coqc (vm_compute) on generated build/cases/C19/*.v: Corr.C19.failing")
     chk.cov["traces_validated_against_impl"] = n_eval
     chk.cov["skipped_ill_conditioned_or_failed_fits"] = skipped
